@@ -465,6 +465,8 @@ enum Sc {
     /// and read in another: every read must give the value declared for exactly that name (whatever names are
     /// keyed by internally — a hash, an interned id — distinct names must stay distinct)
     ManyInputs { n: usize, scheme: u8, seed: u64 },
+    /// lexicase selection over very many cases, several times on one thread with the same stream
+    BigLexicase { cases: usize, seed: u64 },
 }
 
 fn many_name(scheme: u8, i: usize, seed: u64) -> String {
@@ -483,6 +485,63 @@ fn many_name(scheme: u8, i: usize, seed: u64) -> String {
         }
         _ => format!("{:x}", mix(seed, i as u64) ^ ((i as u64) << 40)),
     }
+}
+
+/// Lexicase selection over `cases` (>= 2^20) cases on three individuals, of which two take turns at being the best
+/// (so the order of the cases decides) and one is never selected: repeated on one thread with the same stream, and
+/// once more on a fresh thread, every call must select the same individual — nothing (buffers kept per thread
+/// included) may be carried from one call to the next.
+fn exec_big_lexicase(cases: usize, seed: u64, obs: &mut Obs) -> Vec<Violation> {
+    let mut v = Vec::new();
+    let pop: Vec<EcIndividual<u8, TestResults<Score<i64>>>> = (0..3u8)
+        .map(|who| {
+            let results: TestResults<Score<i64>> = (0..cases)
+                .map(|c| match who {
+                    0 => i64::from(c % 2 == 0),
+                    1 => i64::from(c % 2 == 1),
+                    _ => 0,
+                })
+                .collect();
+            EcIndividual::new(who, results)
+        })
+        .collect();
+    let l = Lexicase::new(cases);
+    let once = |l: &Lexicase, s: u64| -> String {
+        let mut r = simcore::FastRng::new(s);
+        show(l.select(&pop, &mut r).map(|x| pop.iter().position(|y| std::ptr::eq(x, y))))
+    };
+    obs.hit("probe.lexicase-over-2^20-or-more-cases");
+    obs.nontrivial(mix(0xb191e, cases as u64));
+    let r = catch(|| {
+        let mut outcomes: Vec<(u64, String)> = Vec::new();
+        for k in 0..6u64 {
+            let s = seed ^ (k % 2);
+            outcomes.push((s, once(&l, s)));
+            outcomes.push((s, once(&l, s)));
+        }
+        let fresh: Vec<(u64, String)> = std::thread::scope(|sc| sc.spawn(|| (0..2u64).map(|k| (seed ^ k, once(&Lexicase::new(cases), seed ^ k))).collect()).join().unwrap_or_default());
+        (outcomes, fresh)
+    });
+    obs.count("steps", 14);
+    match r {
+        Err(p) => v.push(Violation::new("never-panics", "big-lexicase:panic".to_string(), format!("Lexicase over {cases} cases panicked: {}", p.message))),
+        Ok((outcomes, fresh)) => {
+            for (s, reference) in &fresh {
+                if let Some((i, (_, got))) = outcomes.iter().enumerate().find(|(_, (s2, got))| s2 == s && got != reference) {
+                    v.push(Violation::new(
+                        "no-hidden-state-across-calls",
+                        "big-lexicase:history".to_string(),
+                        format!(
+                            "Lexicase::new({cases}) on three individuals, stream seeded {s:#x}: call #{i} of a series on one thread selected {got}, \
+                             the same call on a fresh thread selects {reference}"
+                        ),
+                    ));
+                    break;
+                }
+            }
+        }
+    }
+    v
 }
 
 fn exec_many_inputs(n: usize, scheme: u8, seed: u64, obs: &mut Obs) -> Vec<Violation> {
@@ -988,6 +1047,11 @@ impl Check for C16 {
         if run < procs {
             return Sc::Proc { chunk_seed: g.next_u64(), count: 2000 };
         }
+        if run % 16_000 == 6001 {
+            // (sizes fixed by the run index: the same under every seed)
+            let cases = [1usize << 20, (1 << 20) + 1, 1 << 21][((run / 16_000) % 3) as usize];
+            return Sc::BigLexicase { cases, seed: g.next_u64() };
+        }
         if run % 8000 == 4001 {
             return Sc::ManyInputs { n: g.log_uniform(8_000, 30_000), scheme: (run / 8000) as u8, seed: g.next_u64() };
         }
@@ -1048,6 +1112,7 @@ impl Check for C16 {
             Sc::Proc { chunk_seed, count } => self.exec_proc(*chunk_seed, *count, obs),
             Sc::Push { init, perm_seed } => Self::exec_push(init, *perm_seed, obs),
             Sc::ManyInputs { n, scheme, seed } => exec_many_inputs(*n, *scheme, *seed, obs),
+            Sc::BigLexicase { cases, seed } => exec_big_lexicase(*cases, *seed, obs),
         }
     }
 
@@ -1075,6 +1140,7 @@ impl Check for C16 {
                     out.push(Sc::Push { init: s.init, perm_seed: *perm_seed });
                 }
             }
+            Sc::BigLexicase { .. } => {}
             Sc::ManyInputs { n, scheme, seed } => {
                 if *n > 2 {
                     out.push(Sc::ManyInputs { n: n / 2, scheme: *scheme, seed: *seed });
